@@ -20,12 +20,27 @@ def load_ref_modules(names):
     return out
 
 
-def build_and_prove(mod, overrides=None, rlimit=None, second_solver=False, only=None):
-    from pyvc import extract, facts, verify, discharge
+_WORKER = {}
+
+
+def _worker_setup(pid, overrides):
+    """per-process: parse the working tree, import it natively for the class facts, load the contract module"""
+    key = (pid, tuple(sorted((overrides or {}).items())))
+    if _WORKER.get('key') != key:
+        from pyvc import extract, facts
+        mod = importlib.import_module('contracts.' + pid)
+        _WORKER.update(key=key, mod=mod, repo=extract.Repo(REPO, overrides=overrides), facts=facts.Facts(REPO),
+                       refs=load_ref_modules(getattr(mod, 'REF_MODULES', [])), contracts=mod.contracts())
+    return _WORKER
+
+
+def _verify_task(task):
+    """symbolic execution of one contract (or one case of it) -> serialisable result"""
+    pid, overrides, ci, case_i = task
+    from pyvc import verify, discharge
     from pyvc.engine import Config
-    repo = extract.Repo(REPO, overrides=overrides)
-    fx = facts.Facts(REPO)
-    refs = load_ref_modules(getattr(mod, 'REF_MODULES', []))
+    w = _worker_setup(pid, overrides)
+    mod = w['mod']
 
     def base():
         c = Config()
@@ -33,26 +48,81 @@ def build_and_prove(mod, overrides=None, rlimit=None, second_solver=False, only=
         if hasattr(mod, 'config'):
             mod.config(c)
         return c
-    v = verify.Verifier(repo, fx, refs, base)
+    v = verify.Verifier(w['repo'], w['facts'], w['refs'], base)
+    c = w['contracts'][ci]
     t0 = time.time()
-    for c in mod.contracts():
+    try:
+        if case_i is not None:
+            import copy
+            c = copy.copy(c)
+            if c.kind == 'post':
+                c.cases = [c.cases[case_i]]
+            else:
+                c.kw = dict(c.kw, cases=[c.kw['cases'][case_i]])
+        if c.kind == 'post':
+            v.verify_post(c)
+        elif c.kind == 'equiv':
+            v.verify_equiv(c)
+        else:
+            c.run(v)
+    except KeyError as e:
+        v.undecided.append((c.label, str(e)))
+    except Exception as e:
+        import traceback
+        v.undecided.append((c.label, 'checker crash: %r %s' % (e, traceback.format_exc()[-600:])))
+        v.crashed = True
+    ex = v.new_executor(base())
+    axioms_for = getattr(mod, 'axioms_for', None)
+    jobs = discharge.prepare(ex, v.obligations, (lambda ob: axioms_for(ex, ob)) if axioms_for else None)
+    return {'jobs': jobs, 'functions': v.functions, 'undecided': v.undecided, 'covers': v.covers, 'paths': v.stats['paths'],
+            'sym_s': time.time() - t0, 'crashed': getattr(v, 'crashed', False)}
+
+
+class _Summary:
+    pass
+
+
+def build_and_prove(mod, overrides=None, rlimit=None, second_solver=False, only=None):
+    from pyvc import discharge
+    from concurrent.futures import ProcessPoolExecutor
+    import multiprocessing
+    pid = mod.__name__.split('.')[-1]
+    contracts = mod.contracts()
+    tasks = []
+    for ci, c in enumerate(contracts):
         if only and not any(c.label.startswith(o) for o in only):
             continue
-        try:
-            if c.kind == 'post':
-                v.verify_post(c)
-            elif c.kind == 'equiv':
-                v.verify_equiv(c)
-            else:
-                c.run(v)
-        except KeyError as e:
-            v.undecided.append((c.label, str(e)))
+        ncases = len(c.cases) if c.kind == 'post' else len(c.kw.get('cases') or [])
+        if ncases > 1:
+            tasks += [(pid, overrides, ci, k) for k in range(ncases)]
+        else:
+            tasks.append((pid, overrides, ci, None))
+    t0 = time.time()
+    nproc = int(os.environ.get('PYVC_PROCS', '0')) or min(16, os.cpu_count() or 4, max(1, len(tasks)))
+    if nproc <= 1 or len(tasks) <= 1:
+        parts = [_verify_task(t) for t in tasks]
+    else:
+        ctx = multiprocessing.get_context('fork')
+        with ProcessPoolExecutor(max_workers=nproc, mp_context=ctx) as pool:
+            parts = list(pool.map(_verify_task, tasks, chunksize=1))
     t_sym = time.time() - t0
-    ex = v.new_executor(base())
+    v = _Summary()
+    v.functions, v.undecided, v.covers, v.stats, v.crashed = {}, [], [], {'paths': 0}, False
+    v.repo = _worker_setup(pid, overrides)['repo']
+    jobs = []
+    seen_generic = set()
+    for p in parts:
+        # loop-body obligations are generic (independent of the case that reached the loop): keep the first task's copy
+        mine = {j['name'] for j in p['jobs'] if j['kind'] == 'body-equiv'}
+        jobs += [j for j in p['jobs'] if j['kind'] != 'body-equiv' or j['name'] not in seen_generic]
+        seen_generic |= mine
+        v.functions.update(p['functions'])
+        v.undecided += p['undecided']
+        v.covers += p['covers']
+        v.stats['paths'] += p['paths']
+        v.crashed = v.crashed or p['crashed']
     t1 = time.time()
-    axioms_for = getattr(mod, 'axioms_for', None)
-    results = discharge.discharge_all(ex, v.obligations, rlimit=rlimit, second_solver=second_solver,
-                                      axioms_for=(lambda ob: axioms_for(ex, ob)) if axioms_for else None)
+    results = discharge.solve_jobs(jobs, rlimit=rlimit, second_solver=second_solver)
     return v, results, t_sym, time.time() - t1
 
 
@@ -155,6 +225,8 @@ def check(pid, tier, seed):
         if not ok:
             lines.append('CHECKER-ERROR: cover failed: %s' % label)
             exit_code = max(exit_code, 3)
+    if v.crashed:
+        exit_code = max(exit_code, 3)
     if v.undecided or unknown:
         exit_code = max(exit_code, 2)
         for label, why in v.undecided:
